@@ -16,7 +16,7 @@ import types
 
 from rt.common import REPO, result
 from rt import structure_helpers as H
-from rt.structure_helpers import GrammarView, Findings, form, fields_of, is_abs, tname, INF, BASES
+from rt.structure_helpers import GrammarView, Findings, form, fields_of, is_abs, tname, INF, BASES, distance_cause
 
 from geneticengine.grammar.grammar import extract_grammar
 
@@ -60,46 +60,6 @@ def supported(view: GrammarView):
             if not ok(ty):
                 return f"{s.__name__}.{n}: {ty!r}"
     return None
-
-
-def distance_cause(view, g, s, exact):
-    """Names the origin of a wrong reported distance at symbol s; None if s merely inherits the error."""
-    if s in BASES:
-        return f"base-{s.__name__}"
-    if is_abs(s):
-        return None if any(not exact.get(p, True) for p in view.prods(s)) else "abstract-type"
-    causes = []
-    for n, ty in fields_of(s):
-        if any(not exact.get(c, True) for c in H.class_mentions(ty)):
-            return None
-        c = form_cause(view, g, ty)
-        if c:
-            causes.append(c)
-    return "+".join(sorted(set(causes))) if causes else "concrete-type"
-
-
-def form_cause(view, g, ty):
-    """innermost type form at which the library's distance differs from the independent one"""
-    try:
-        lib = g.get_distance_to_terminal(ty)
-    except Exception:
-        lib = None
-    if lib == view.md(ty):
-        return None
-    f = form(ty)
-    k = f[0]
-    if k in ("base", "class"):
-        return f"base-{f[1].__name__}" if f[1] in BASES else None
-    subs = [f[1]] if k in ("ann", "list") else list(f[1])
-    for t in subs:
-        c = form_cause(view, g, t)
-        if c:
-            return c
-    if k == "ann":
-        k = form(f[1])[0]
-    if k == "list":
-        k = "possibly-empty-list"
-    return f"{k}-field"
 
 
 def check_grammar(name, classes, start, mode, F: Findings, stats):
